@@ -301,13 +301,13 @@ Theorem rotatecopy_asymmetric_refuted :
 Proof. exact C03Refute.rotatecopy_asymmetric_refuted. Qed.
 Print Assumptions rotatecopy_asymmetric_refuted.
 
-(* REFUTED without its hypotheses: the box-pruned Union2D over an operand with an empty solid (the
-   intersection of two disjoint boxes) jumps from 23/2 at (-21/2, 0) to 19/2 at (-21/2, 1/2); exact
-   rational evaluation of the model (no square root on these paths). prune_witness, prune_values:
-   coq/Sdf/C03Refute.v *)
-Theorem union2_prune_refuted : prune_values = Some (23 # 2, 19 # 2)%Q.
-Proof. exact C03Refute.union2_prune_refuted. Qed.
-Print Assumptions union2_prune_refuted.
+(* REPAIRED (fix: commit in /repo, C16): with the pinned pruning (overlap of box distance intervals) the
+   box-pruned Union2D over an operand with an empty solid (the intersection of two disjoint boxes) jumped
+   from 23/2 at (-21/2, 0) to 19/2 at (-21/2, 1/2); the repaired pruning returns the exhaustive minimum,
+   10 and 19/2 (exact rational evaluation of the model; prune_witness, prune_values: coq/Sdf/C03Refute.v) *)
+Theorem union2_prune_witness_repaired : prune_values = Some (10, 19 # 2)%Q.
+Proof. exact C03Refute.union2_prune_witness_repaired. Qed.
+Print Assumptions union2_prune_witness_repaired.
 
 (* ================================================================== all compositions *)
 (* lipwf2 / lipwf3 (coq/Sdf/LipTreeR.v): listed combinators only; blends plain or polynomial with k > 0;
